@@ -83,3 +83,34 @@ def confirm_race(prop_name, tier, task_name, values, threads=4, timeout=2400):
         return dict(confirmed=True, detail="valgrind helgrind on the unmodified code with OMP_NUM_THREADS=%d: %d conflicting access pair(s) inside outlined OpenMP bodies, e.g. %s vs %s"
                     % (threads, len(hits), hits[0][0][0], hits[0][1][0]))
     return dict(confirmed=False, detail="helgrind reported no conflict between two outlined OpenMP bodies (%s)" % ("harness completed" if ran else "harness did not complete: " + out[-300:]))
+
+
+def confirm_schedule(prop_name, tier, task_name, values, obligation, threads=(2, 3, 4), reps=40, timeout=900):
+    """Confirmation of a schedule-dependent result on the real, compiled code: the concrete harness obligation is evaluated in a
+    child process with a real OpenMP team of 2, 3 and 4 threads, up to `reps` times each (the assignment of chunks to threads
+    differs from run to run); it counts as reproduced when the obligation fails in at least one run."""
+    from . import replaylibs
+    d = replaylibs.build(with_fft=True)
+    tdir = tempfile.mkdtemp(prefix="verif_sched_")
+    tried = []
+    try:
+        vf = os.path.join(tdir, "values.json")
+        with open(vf, "w") as f:
+            json.dump(dict(prop=prop_name, tier=tier, task=task_name, values=values, obligation=obligation, reps=reps), f)
+        for T in threads:
+            env = dict(os.environ)
+            env.update(VERIF_LIBDIR=d, OMP_NUM_THREADS=str(T), OMP_DYNAMIC="false", OPENBLAS_NUM_THREADS="1", PYTHONDONTWRITEBYTECODE="1",
+                       PYTHONPATH=VERIF + os.pathsep + env.get("PYTHONPATH", ""))
+            try:
+                p = subprocess.run([sys.executable, "-m", "vf.schedchild", vf], stdout=subprocess.PIPE, stderr=subprocess.STDOUT, text=True, env=env, timeout=timeout, cwd=VERIF)
+                out = p.stdout
+            except subprocess.TimeoutExpired:
+                tried.append("T=%d timed out" % T)
+                continue
+            m = re.search(r"SCHEDCHILD-CONFIRMED rep=(\d+) (.*)", out)
+            if m:
+                return dict(confirmed=True, detail="unmodified code, compiled library, OMP_NUM_THREADS=%d, run %s of at most %d: %s" % (T, m.group(1), reps, m.group(2)))
+            tried.append("T=%d: %s" % (T, "held in %d runs" % reps if "SCHEDCHILD-DONE" in out and "SCHEDCHILD-EXC" not in out else "child failed: " + out[-200:]))
+    finally:
+        shutil.rmtree(tdir, True)
+    return dict(confirmed=False, detail="not reproduced with a real team: " + "; ".join(tried))
